@@ -43,6 +43,10 @@ SCENARIOS = {
     "populated": dict(prep=[["h_other", 1], ["g_same", 2], ["p_part", 3]], target=["f_scalar", 1],
                       matrix=[["f_scalar", 1], ["h_other", 1], ["g_same", 2], ["p_part", 3], ["f_scalar", 1], ["h_other", 1], ["g_same", 2],
                               ["p_part", 3], ["f_scalar", 2], ["f_scalar", 2]]),
+    # an array result that is larger than the (tiny) cache while the caller keeps every result it got: the cache knows such a
+    # result only through a weak reference
+    "array-held": dict(prep=[], target=["a_arr", 1], hold=True, model=False,
+                       matrix=[["a_arr", 1], ["a_arr", 1], ["a_arr", 1], ["a_arr", 2], ["a_arr", 2]]),
     # a partition merged on top of the partition returned by a nested memento call (both written during the faulted call)
     "merged-partition": dict(prep=[], target=["p_b", 1],
                              matrix=[["p_b", 1], ["p_b", 1], ["p_a", 1], ["p_a", 1], ["p_b", 1]], model=False),
@@ -206,7 +210,7 @@ def run_variant(base_root, scn, sc, backend, variant):
             fault = dict(kind=kind, index=variant["index"])
         elif kind == "fsize":
             fault = dict(kind="fsize", limit=variant["limit"])
-        w = child(dict(root=root, cache_mb=cache, calls=[sc["target"]], fault=fault,
+        w = child(dict(root=root, cache_mb=cache, calls=[sc["target"]], fault=fault, hold=bool(sc.get("hold")),
                        then=sc["matrix"] if (kind.startswith("error") or kind == "fsize") else []))
         rec["write_events"] = len(w["events"])
         rec["write_result"] = w["results"]
@@ -227,7 +231,7 @@ def run_variant(base_root, scn, sc, backend, variant):
             fails += [dict(f, phase="faulted-call") for f in judge(sc, w["results"])]
             # (the faulted call did not memoize, so the first later call may compute and write again)
             fails += [dict(f, phase="same-process") for f in judge(sc, w["then"])]
-        fresh = child(dict(root=root, cache_mb=cache, calls=[], fault=None, then=sc["matrix"]))
+        fresh = child(dict(root=root, cache_mb=cache, calls=[], fault=None, then=sc["matrix"], hold=bool(sc.get("hold"))))
         rec["fresh_process"] = fresh["then"]
         fails += [dict(f, phase="fresh-process") for f in judge(sc, fresh["then"])]
         rec["fails"] = fails
@@ -244,7 +248,7 @@ def enumerate_scenario(chk, scn, backend, workers=16, use_model=True):
     # fault-free reference run (on a copy) to learn the primitive-op list
     ref_root = tempfile.mkdtemp(prefix="c08r_", dir=chk.tmpdir())
     copy_store(base, ref_root)
-    ref = child(dict(root=ref_root, cache_mb=BACKENDS[backend], calls=[sc["target"]], fault=None, then=sc["matrix"]))
+    ref = child(dict(root=ref_root, cache_mb=BACKENDS[backend], calls=[sc["target"]], fault=None, then=sc["matrix"], hold=bool(sc.get("hold"))))
     events = ref["events"]
     # (reads of the target call alone: a second fault-free run without the matrix)
     ref2_root = tempfile.mkdtemp(prefix="c08r2_", dir=chk.tmpdir())
@@ -320,7 +324,7 @@ def main(chk, replay=None):
 
     chk.level = "proof"
     chk.rule = ("scenarios {scalar, dedup hit, exception, 2-key partition, null with override, override rewrite, populated store, "
-                "partition merged on a nested call's partition} x backends {fs, fs+cache, fs+cache smaller than any result}; for each, EVERY mutating primitive op (mkdir, open-for-write, rename, remove under the "
+                "partition merged on a nested call's partition, array larger than the cache whose results the caller keeps} x backends {fs, fs+cache, fs+cache smaller than any result}; for each, EVERY mutating primitive op (mkdir, open-for-write, rename, remove under the "
                 "root) recorded in a fault-free run gives the variants crash-before, ENOSPC-at-op, and for file opens "
                 "EFBIG-on-write and crash-mid-write (file left empty / half); a transient ESTALE on every file opened for reading during the call; plus the whole call under 5 kernel file-size limits "
                 "(RLIMIT_FSIZE: real short writes). Each variant is produced with real child "
@@ -331,7 +335,7 @@ def main(chk, replay=None):
     proof_ok = chk.build_and_audit()
     quick = chk.tier == "quick"
     todo = [("scalar", "fs"), ("scalar", "fs+cache"), ("scalar", "fs+cache-tiny"), ("partition", "fs"), ("populated", "fs"),
-            ("merged-partition", "fs")] if quick else \
+            ("merged-partition", "fs"), ("array-held", "fs+cache-tiny")] if quick else \
         [(s, b) for s in SCENARIOS for b in BACKENDS]
     reported = 0
     for scn, backend in todo:
